@@ -263,7 +263,11 @@ func c11History(R *vr.Result, rng *rand.Rand, id, mode string, h int) (harmfulSe
 		users = append(users, ovlUser{Name: n, Pw: "init-" + n, Admin: adm, Set: set, Aux: "totp: QUJD\n"})
 		init.U[i] = c11User{true, "init-" + n, adm}
 	}
-	st := ovlMkStore(rng, dir, sets, 1, users)
+	st := ovlMkStore(rng, dir, sets, 1, nil)
+	st.Now = h%2 == 0 // records written in the very second in which the history runs (same-second timestamps)
+	for _, u := range users {
+		st.Plant(rng, u)
+	}
 	// failpoints for this history
 	d := func(max int) time.Duration { return time.Duration(rng.Intn(max+1)) * 100 * time.Microsecond }
 	verifSetDelay("exec.update", d(8))
